@@ -6,23 +6,15 @@ from pathlib import Path
 V = Path(__file__).resolve().parent.parent
 ALL = [f"C{i:02d}" for i in range(1, 21)]
 
-# property -> (technique, level text, level note, design ref)
-CLAIMED = {
-    "C18": ("Coq proof (Qc model of Rectangle, 16 theorems) + vm_compute correspondence with the Python methods",
-            "Machine-checked theorems over a Gallina model of every pure Rectangle method (overlap area = area of the common region, "
-            "intersection, containment, membership, touching, splits tile and inherit, cuttability), for all rectangles and coordinates; "
-            "the model is tied to /repo on every run by evaluating it in Coq on thousands of generated calls and comparing with the real methods.",
-            "Trusted: Coq kernel + vm_compute; hand-written model tied by differential correspondence (exact dyadic inputs); "
-            "binary64 rounding modelled by exact rationals; rectangle_grid tiling theorem not yet proved (covered by correspondence + oracle).",
-            "DESIGN.md section 4, C18"),
-    "C16": ("Coq proof (Z model of Literal/Term/Expr/Ineq, build_eval by induction on expression trees) + vm_compute correspondence",
-            "Machine-checked: for every expression tree over literals of both polarities, terms, integers and nested expressions with +, -, integer *, "
-            "the normalised expression evaluates to the direct integer value under every assignment and is in normal form (positive coefficients, "
-            "no repeated variable); a built inequality holds iff the direct comparison holds, for all operators. The model is tied to "
-            "tools/rect/pseudobool.py on every run by structural comparison of (constant, ordered terms) and (lhs, rhs, op) on thousands of random trees.",
-            "Trusted: Coq kernel + vm_compute; hand-written model tied by differential correspondence; Python int = Z; OrderedDict = list.",
-            "DESIGN.md section 4, C16"),
-}
+def load_claims():
+    out = {}
+    for p in sorted((V / "tools" / "claims").glob("C*.json")):
+        d = json.loads(p.read_text())
+        out[p.stem] = (d["technique"], d["text"], d["note"], d["design_ref"])
+    return out
+
+
+CLAIMED = load_claims()
 PENDING_REASON = "not built yet in this revision of /verif (design in DESIGN.md section 4); no check is registered, so nothing is claimed"
 
 
@@ -49,7 +41,7 @@ def main():
                 e["reason"] = reasons[e["property_id"]]
     m = {
         "version": 1,
-        "setup_cmd": "cd /verif/coq && coq_makefile -f _CoqProject -o Makefile && timeout 3000 make -j16",
+        "setup_cmd": "cd /verif && python3 tools/mkcoqproject.py && cd coq && coq_makefile -f _CoqProject -o Makefile && timeout 3000 make -j16",
         "hooks": {
             "guard": "FRAME_VERIF",
             "enable": "checks run the implementation with FRAME_VERIF=1 in the environment (set by ./check); Python, so no rebuild",
